@@ -4,7 +4,7 @@
   the tolerance comparison `MapId.equals`.
 -/
 import DDS.Proofs.Num
-import DDS.Proofs.Wire
+import DDS.Proofs.Codec
 import DDS.Model.Proto
 
 namespace DDS
@@ -33,6 +33,41 @@ theorem kind_of_interpolation (k : MKind) :
       else if Proto.interpolationOf k = 1 then some MKind.linear
       else if Proto.interpolationOf k = 3 then some MKind.cubic else none) = some k := by
   cases k <;> decide
+
+/-! ### the mapping block of the binary format (self-contained: `DDS.Proofs.Wire` is not imported,
+    so that this file can be used together with the `SpecSketch` family of modules) -/
+
+theorem flag_mk' (t s : Nat) (ht : t < 2 ^ Consts.numBitsForType) :
+    Wire.flagType (Wire.mkFlag t s) = t ∧ Wire.flagSub (Wire.mkFlag t s) = s := by
+  unfold Wire.flagType Wire.flagSub Wire.mkFlag
+  generalize 2 ^ Consts.numBitsForType = m at *
+  constructor
+  · rw [Nat.add_mul_mod_self_right, Nat.mod_eq_of_lt ht]
+  · rw [Nat.add_mul_div_right _ _ (by omega), Nat.div_eq_of_lt ht, Nat.zero_add]
+
+/-- one step of `parseBlock` on a mapping flag, on opaque bytes -/
+theorem parseBlock_mapping_of (f : Nat) (bs bs1 bs2 : Bytes) (g o : Nat)
+    (ht : Wire.flagType f = Consts.flagTypeIndexMapping) (hs : Wire.flagSub f ≤ 4)
+    (h1 : Codec.decF64LE bs = .ok (g, bs1)) (h2 : Codec.decF64LE bs1 = .ok (o, bs2)) :
+    Wire.parseBlock (f :: bs) = .ok (.mapping (Wire.flagSub f) g o, bs2) := by
+  simp only [Wire.parseBlock, ht, if_pos hs, if_true,
+    if_neg (show ¬ Consts.flagTypeIndexMapping = Consts.flagTypePositiveStore by decide),
+    if_neg (show ¬ Consts.flagTypeIndexMapping = Consts.flagTypeNegativeStore by decide)]
+  rw [h1]
+  show (Wire.liftDec (Codec.decF64LE bs1) >>= _) = _
+  rw [h2]
+  rfl
+
+theorem parseBlock_encBlock_mapping (sub g o : Nat) (hs : sub ≤ 4) (hg : g < W64) (ho : o < W64)
+    (rest : Bytes) :
+    Wire.parseBlock (Wire.encBlock (.mapping sub g o) ++ rest) = .ok (.mapping sub g o, rest) := by
+  obtain ⟨h1, h2⟩ := flag_mk' Consts.flagTypeIndexMapping sub (by decide)
+  have e : Wire.encBlock (.mapping sub g o) ++ rest =
+      Wire.mkFlag Consts.flagTypeIndexMapping sub ::
+        (Codec.encF64LE g ++ (Codec.encF64LE o ++ rest)) := by
+    simp [Wire.encBlock]
+  rw [e, parseBlock_mapping_of _ _ _ rest g o h1 (by rw [h2]; exact hs)
+    (Codec.decF64LE_encF64LE g hg _) (Codec.decF64LE_encF64LE o ho rest), h2]
 
 /-! ### `ofBlock` -/
 
@@ -159,13 +194,13 @@ theorem pow2_neg1022_le : pow2 (-1022) ≤ 1 / 10^13 := by
     norm_num
   exact le_trans h1 h2
 
-/-- the numeric core: the relative gap `10⁻¹¹/(1+10⁻¹¹)`, even shrunk by one rounding, exceeds the
+/-- the numeric core: the relative gap `2·10⁻¹²/(1+2·10⁻¹²)`, even shrunk by one rounding, exceeds the
     tolerance enlarged by one rounding -/
 theorem gap_const :
-    tolQ * (1 + pow2 (-53)) < (1 - 1 / (1 + 1 / 10^11)) * (1 - pow2 (-53)) := by
+    tolQ * (1 + pow2 (-53)) < (1 - 1 / (1 + 2 / 10^12)) * (1 - pow2 (-53)) := by
   rw [pow2_neg53]; unfold tolQ; norm_num
 
-theorem withinTolerance_apart (ga gb : Rat) (h1 : 1 ≤ ga) (hab : ga * (1 + 1 / 10^11) < gb)
+theorem withinTolerance_apart (ga gb : Rat) (h1 : 1 ≤ ga) (hab : ga * (1 + 2 / 10^12) < gb)
     (hb' : gb ≤ pow2 1023) : withinTolerance (.fin ga) (.fin gb) = false := by
   have hga : 0 < ga := by linarith
   have hlt : ga < gb := by nlinarith
@@ -188,14 +223,14 @@ theorem withinTolerance_apart (ga gb : Rat) (h1 : 1 ≤ ga) (hab : ga * (1 + 1 /
   rename_i hx1 hx2
   clear hx1 hx2
   -- the gap, in exact rationals
-  have hc : 0 < 1 - 1 / (1 + 1 / (10:Rat)^11) := by norm_num
-  have hgap : gb * (1 - 1 / (1 + 1 / 10^11)) < gb - ga := by
-    have : ga < gb / (1 + 1 / 10^11) := by
+  have hc : 0 < 1 - 1 / (1 + 2 / (10:Rat)^12) := by norm_num
+  have hgap : gb * (1 - 1 / (1 + 2 / 10^12)) < gb - ga := by
+    have : ga < gb / (1 + 2 / 10^12) := by
       rw [lt_div_iff₀ (by norm_num)]; exact hab
-    have e : gb * (1 - 1 / (1 + 1 / 10^11)) = gb - gb / (1 + 1 / 10^11) := by ring
+    have e : gb * (1 - 1 / (1 + 2 / 10^12)) = gb - gb / (1 + 2 / 10^12) := by ring
     rw [e]; linarith
   have hgap1 : (1 : Rat) / 10^12 < gb - ga := by
-    have : (1:Rat) / 10^12 ≤ 1 * (1 - 1 / (1 + 1 / 10^11)) := by norm_num
+    have : (1:Rat) / 10^12 ≤ 1 * (1 - 1 / (1 + 2 / 10^12)) := by norm_num
     nlinarith
   -- relative errors
   have hn1 : pow2 (-1022) ≤ |ga - gb| := by
@@ -223,9 +258,9 @@ theorem withinTolerance_apart (ga gb : Rat) (h1 : 1 ≤ ga) (hab : ga * (1 + 1 /
     have hk := gap_const
     have l1 : rv (tolQ * gb) ≤ gb * (tolQ * (1 + pow2 (-53))) := by linarith
     have l2 : (gb - ga) * (1 - pow2 (-53)) ≤ -rv (ga - gb) := by linarith
-    have l3 : gb * (tolQ * (1 + pow2 (-53))) < gb * ((1 - 1 / (1 + 1 / 10^11)) * (1 - pow2 (-53))) :=
+    have l3 : gb * (tolQ * (1 + pow2 (-53))) < gb * ((1 - 1 / (1 + 2 / 10^12)) * (1 - pow2 (-53))) :=
       mul_lt_mul_of_pos_left hk (by linarith)
-    have l4 : gb * ((1 - 1 / (1 + 1 / 10^11)) * (1 - pow2 (-53))) ≤ (gb - ga) * (1 - pow2 (-53)) := by
+    have l4 : gb * ((1 - 1 / (1 + 2 / 10^12)) * (1 - pow2 (-53))) ≤ (gb - ga) * (1 - pow2 (-53)) := by
       have : 0 < 1 - pow2 (-53) := by linarith
       nlinarith
     linarith
